@@ -154,6 +154,17 @@ Theorem C04_trace_complete : forall W sem f (c : cache) n,
 Proof. exact evalT_complete_cached. Qed.
 Print Assumptions C04_trace_complete.
 
+(* … and the trace contains EVERY cache entry the evaluation depends on: a
+   cache that agrees with c1 on the evaluated node and on every cell of the
+   trace gives the same value and the same trace (so, with C04_trace_edges, the
+   value of n depends on the cache only through n and edges below n) *)
+Theorem C04_trace_determines : forall W sem f (c1 c2 : cache) n, c1 n = c2 n ->
+  (forall r d, In (r, d) (snd (eval_traced W sem f c1 n)) -> c1 d = c2 d) ->
+  snd (eval W sem f c2 n) = snd (eval W sem f c1 n)
+  /\ snd (eval_traced W sem f c2 n) = snd (eval_traced W sem f c1 n).
+Proof. exact trace_determines. Qed.
+Print Assumptions C04_trace_determines.
+
 (* the same for whole histories (evaluate = _gen_graph, which evaluates the new
    range nodes, then _evaluate): erasing the traces gives Graph.run, and every
    pair read by any operation is an edge *)
